@@ -195,6 +195,10 @@ func (fx *Fx) havocTrace(st *State) {
 		old := st.trCols[col]
 		sort, _ := fx.v.traceColSort(fx, col)
 		nw := fx.d.freshConst("T_"+col, "(Array Int "+sort+")")
+		if col == "callat" {
+			st.trCols[col] = nw
+			continue
+		}
 		st.assume(fmt.Sprintf("(forall ((k Int)) (! (=> (< k %s) (= (select %s k) (select %s k))) :pattern ((select %s k))))", n0, nw, old, nw))
 		st.trCols[col] = nw
 	}
